@@ -127,6 +127,14 @@ REPEAT = {
     "ternary_seq": lambda k: "void f(void){" + "a ? b : c; " * k + "}",
     "sizeof_seq": lambda k: "typedef int T; void f(void){" + "x = sizeof(T) + sizeof y + sizeof(y); " * k + "}",
     "enum_defs_in_fn": lambda k: "void f(void){" + "".join("enum { A%d, B%d }; " % (i, i) for i in range(k)) + "}",
+    # two things growing together: many visible names AND many scopes / uses of them
+    "globals_and_typedef_blocks": lambda k: "int " + ", ".join("g%d" % i for i in range(k)) + "; void f(void){" + "{ typedef int T; T x = 1; } " * k + "}",
+    "typedefs_and_uses": lambda k: "".join("typedef int t%d; " % i for i in range(k)) + "void f(void){" + "".join("t%d v%d; " % (i, i) for i in range(k)) + "}",
+    "globals_and_functions": lambda k: "".join("int g%d; " % i for i in range(k)) + "".join("int f%d(int a) { int b = a + g%d; return b; } " % (i, i) for i in range(k)),
+    "enumerators_and_uses": lambda k: "enum E { " + ", ".join("K%d" % i for i in range(k)) + " }; int s = " + " + ".join("K%d" % i for i in range(k)) + ";",
+    "tags_and_uses": lambda k: "".join("struct S%d { int m; }; " % i for i in range(k)) + "".join("struct S%d v%d; " % (i, i) for i in range(k)),
+    "params_and_body_uses": lambda k: "int f(" + ", ".join("int p%d" % i for i in range(k)) + ") { return " + " + ".join("p%d" % i for i in range(k)) + "; }",
+    "nested_scopes_and_lookups": lambda k: "typedef int T; void f(void){" + "{ T a; " * min(k, 60) + "T z; " * k + "} " * min(k, 60) + "}",
     "struct_defs": lambda k: "".join("struct S%d { int a; struct S%d *p; };" % (i, i) for i in range(k)),
 }
 
